@@ -82,6 +82,7 @@ type Config struct {
 	States []int32
 	La     int
 	Qla    int
+	Errs   []int // token seqs of the Error symbols currently on the stack, bottom first
 }
 
 type stop struct{ why string }
@@ -94,6 +95,8 @@ type H struct {
 	Reads  int
 	Acts   int
 	First  *Err // first Error delivered to an action
+	ErrSeqs []int // token seq of every Error delivered, in delivery order
+	Pending []int // token seqs of the Error symbols on the parser stack when the first Error was delivered
 	LastID int
 	Tap    func() Config
 
@@ -224,9 +227,13 @@ func (h *H) Act(m int, args ...any) *Node {
 	for _, a := range args {
 		if e, ok := a.(Err); ok && (e.Tok.Seq != 0 || e.Exp != nil) {
 			h.NErr++
+			h.ErrSeqs = append(h.ErrSeqs, e.Tok.Seq)
 			if h.First == nil {
 				c := e
 				h.First = &c
+				if h.Tap != nil {
+					h.Pending = append([]int{}, h.Tap().Errs...)
+				}
 			}
 		}
 	}
@@ -322,6 +329,8 @@ type ParseRes struct {
 	Panic   string        `json:"panic,omitempty"`
 	ErrSeq  int           `json:"errseq,omitempty"` // seq of the token in the first Error delivered
 	ErrExp  []int         `json:"errexp,omitempty"`
+	ErrSeqs []int         `json:"errseqs,omitempty"` // token seq of every Error delivered, in order
+	Pending []int         `json:"pending,omitempty"` // Error symbols on the stack (token seqs) when the first Error was delivered
 	Root    int           `json:"root,omitempty"`
 	Events  []Event       `json:"ev,omitempty"`
 	States  map[int32]int `json:"states,omitempty"`
@@ -338,7 +347,9 @@ type EnumJob struct {
 }
 
 // EnumRes: one compact verdict per string, in order. Verdict = letter
-// followed, when an Error was delivered, by the seq of its token:
+// followed, when Errors were delivered, by the comma-separated seqs of the
+// tokens they carry, in delivery order, then "|" and the seqs carried by the
+// Error symbols that were on the parser stack when the first one was delivered:
 //
 //	A accepted, no Error delivered      E accepted, Error(s) delivered
 //	R parse()==false, no Error          F parse()==false, Error(s) delivered
@@ -383,6 +394,8 @@ func runParse(e *Entry, toks []Token, rec bool) (res ParseRes) {
 		if h.First != nil {
 			res.ErrSeq = h.First.Tok.Seq
 			res.ErrExp = h.First.Exp
+			res.ErrSeqs = h.ErrSeqs
+			res.Pending = h.Pending
 		}
 		res.Root = h.LastID
 		res.Events = h.Events
@@ -419,7 +432,20 @@ func verdict(r *ParseRes) string {
 	default:
 		return "R"
 	}
-	return fmt.Sprintf("%s%d", c, r.ErrSeq)
+	s := fmt.Sprintf("%s%d", c, r.ErrSeq)
+	for _, q := range r.ErrSeqs[1:] {
+		s += fmt.Sprintf(",%d", q)
+	}
+	if len(r.Pending) > 0 {
+		s += "|"
+		for i, q := range r.Pending {
+			if i > 0 {
+				s += ","
+			}
+			s += fmt.Sprint(q)
+		}
+	}
+	return s
 }
 
 func mkToks(types []int, dmod int) []Token {
